@@ -8,6 +8,7 @@ import Driver.Filter
 import Driver.Reader
 import Driver.Quote
 import Driver.Ansi
+import Driver.Http
 /-
 fzfmodel: reads protocol lines `<area> <op> <args>... => <impl answer>` on stdin and
 prints, per line, `EQ|NE PASS|FAIL|NA | model=<answer> | <reason>`.
@@ -25,6 +26,7 @@ def dispatch (ctx : Driver.Algo.Ctx) (area op : String) (args impl : List String
   | "reader" => Driver.Reader.run op args impl
   | "quote" => Driver.Quote.run op args impl
   | "ansi" => Driver.Ansi.run op args impl
+  | "http" => Driver.Http.run op args impl
   | _ => { model := "bad-area" }
 
 def processLine (ctx : Driver.Algo.Ctx) (line : String) : String :=
